@@ -11,6 +11,10 @@ def main():
     with tempfile.TemporaryDirectory() as d:
         xmlf = os.path.join(d, "junit.xml")
         cmd = base["cmd"].replace("<file>", xmlf)
+        repo = os.environ.get("VERIF_REPO")
+        if repo:
+            cmd = cmd.replace("cd /repo", "cd " + repo)
+            env["PYTHONPATH"] = repo
         p = subprocess.run(cmd, shell=True, env=env, stdout=subprocess.PIPE, stderr=subprocess.STDOUT, text=True)
         passed = set()
         for tc in ET.parse(xmlf).getroot().iter("testcase"):
